@@ -84,12 +84,18 @@ package edns
 //@   assert at call (middleware.ResponseWriter).WriteMsg#1: w.noad ==> !arg1.AuthenticatedData
 //@   # the reply's option list as last written: after both strips it holds no ECS and no keepalive option; the only
 //@   # thing appended afterwards is the server's own keepalive, and only for a TCP client that asked (w.keepalive)
-//@   assert at store dns.OPT.Option#3: !w.noedns && forall i int :: {value[i]} 0 <= i && i < len(value) ==> !dyntype(value[i], *dns.EDNS0_SUBNET) && !dyntype(value[i], *dns.EDNS0_TCP_KEEPALIVE)
-//@   assert at store dns.OPT.Option#4: w.keepalive && forall i int :: {value[i]} 0 <= i && i < len(value) ==> !dyntype(value[i], *dns.EDNS0_SUBNET)
+//@   assert at store dns.OPT.Option#4: !w.noedns && forall i int :: {value[i]} 0 <= i && i < len(value) ==> !dyntype(value[i], *dns.EDNS0_SUBNET) && !dyntype(value[i], *dns.EDNS0_TCP_KEEPALIVE)
+//@   assert at store dns.OPT.Option#5: w.keepalive && forall i int :: {value[i]} 0 <= i && i < len(value) ==> !dyntype(value[i], *dns.EDNS0_SUBNET)
 //@   assert at call middleware/edns.stripECS#1: calls("middleware/edns.stripKeepalive") == 0
 //@   # both strips run on EVERY reply that carries an OPT, whatever the client asked for
 //@   assert at call (middleware.ResponseWriter).WriteMsg#1: !old(w.noedns) ==> calls("middleware/edns.stripECS") == 1 && calls("middleware/edns.stripKeepalive") == 1
 //@   assert at call (middleware.ResponseWriter).WriteMsg#1: w.noedns ==> forall i int :: {arg1.Extra[i]} 0 <= i && i < len(arg1.Extra) ==> !dyntype(arg1.Extra[i], *dns.OPT)
+//@   # C06 ("foreign options never reflected, the server cookie returned only against the client cookie sent"): when the
+//@   # response brought its OWN OPT record (an upstream's, or one built inside the chain), only its Extended DNS Error
+//@   # options are kept before the server's own options are added - an upstream's cookie, NSID, padding or private
+//@   # option never reaches the client
+//@   assert at store dns.OPT.Option#1: value == lastret("middleware/edns.onlyEDE") && target != w.opt
+//@   assert at call middleware/edns.onlyEDE#1: arg0 == opt.Option && opt != w.opt
 //@
 //@ # ---- C19: a configuration ecs.Build rejects yields NO policy (forwarding off), never a permissive one
 //@ func buildECSPolicy
@@ -108,3 +114,11 @@ package edns
 //@   assert at call (*github.com/miekg/dns.Msg).Len#2: arg0 == m
 //@   assert at return#1: !result && lastret("(*github.com/miekg/dns.Msg).Len#1") <= limit
 //@   assert at return#2: result == (lastret("(*github.com/miekg/dns.Msg).Len#2") > limit)
+
+//@ # what onlyEDE keeps is an Extended DNS Error option; it writes only the elements of the list it was given
+//@ func onlyEDE
+//@   modifies allelems(dns.EDNS0)
+//@   loop 1 invariant 0 <= rangeidx && rangeidx <= len(opts) && len(keep) <= rangeidx && cap(keep) == cap(opts)
+//@   assert at append#1: dyntype(o, *dns.EDNS0_EDE)
+//@   assert at return: result == keep
+
